@@ -185,6 +185,10 @@ def attributes(draw, allow4=True, rich=None):
         a['cluster_list'] = draw(st.lists(ipv4_addr, min_size=1, max_size=4))
     if p():
         a['aigp'] = draw(u(B64, 2**64 - 1))
+    if draw(st.integers(0, 11)) == 0:
+        # BGP Prefix-SID (RFC 8669): a 32-bit label index, optionally Originator SRGB tuples of a 24-bit base and a 24-bit range
+        b24 = st.one_of(st.sampled_from([0, 1, 16000, 2**24 - 2, 2**24 - 1]), st.integers(0, 2**24 - 1))
+        a['prefix_sid'] = [draw(u(B32, 2**32 - 1)), [list(t) for t in draw(st.lists(st.tuples(b24, b24), max_size=2))]]
     if draw(st.integers(0, 9)) == 0:
         # generic attribute: an unassigned optional transitive code
         a['generic'] = [draw(st.sampled_from([0x63, 0x99, 0xF0])), draw(st.sampled_from([0xC0, 0x80, 0xE0])), draw(st.binary(min_size=0, max_size=12)).hex()]
@@ -221,10 +225,28 @@ def attributes_text(a: dict) -> str:
         out.append('cluster-list ' + (cl[0] if len(cl) == 1 else '[ ' + ' '.join(cl) + ' ]'))
     if 'aigp' in a:
         out.append(f'aigp {a["aigp"]}')
+    if 'prefix_sid' in a:
+        out.append(prefix_sid_text(a['prefix_sid']))
     if 'generic' in a:
         code, flags, value = a['generic']
         out.append(f'attribute [ 0x{code:02x} 0x{flags:02x} 0x{value} ]')
     return ' '.join(out)
+
+
+def prefix_sid_text(v: list) -> str:
+    index, srgb = v
+    if not srgb:
+        return f'bgp-prefix-sid [ {index} ]'
+    return f'bgp-prefix-sid [ {index}, [ ' + ' '.join(f'( {b},{r} )' for b, r in srgb) + ' ] ]'
+
+
+def prefix_sid_value(v: list) -> str:
+    """RFC 8669 3: Label-Index TLV (type 1: reserved, flags, index), Originator SRGB TLV (type 3: flags, then base / range of 3 octets each)"""
+    index, srgb = v
+    raw = bytes([1]) + struct.pack('!H', 7) + bytes(3) + struct.pack('!L', index)
+    if srgb:
+        raw += bytes([3]) + struct.pack('!H', 2 + 6 * len(srgb)) + bytes(2) + b''.join(b.to_bytes(3, 'big') + r.to_bytes(3, 'big') for b, r in srgb)
+    return raw.hex()
 
 
 FAMILY_TEXT = {(1, 1): 'ipv4 unicast', (1, 2): 'ipv4 multicast', (1, 4): 'ipv4 nlri-mpls', (1, 128): 'ipv4 mpls-vpn', (2, 1): 'ipv6 unicast', (2, 4): 'ipv6 nlri-mpls', (2, 128): 'ipv6 mpls-vpn'}
@@ -256,7 +278,7 @@ def routes(draw, allow4=True, families=None, rich=None, family_form_subset=True)
     rec['attrs'] = draw(attributes(allow4, rich))
     if rec['form'] == 'family' and family_form_subset:
         # the `<afi> <safi>` spelling is a separate, narrower parser: keep what it takes (C18 probes the rest)
-        for k in ('originator', 'cluster_list', 'atomic', 'aigp', 'generic'):
+        for k in ('originator', 'cluster_list', 'atomic', 'aigp', 'generic', 'prefix_sid'):
             rec['attrs'].pop(k, None)
         rec.pop('path_id', None)
         rec.pop('path_id_form', None)
@@ -342,6 +364,8 @@ def expected_attrs(rec: dict, local_as: int, peer_as: int, asn4: bool) -> dict:
         out[26] = [a['aigp']]
     if 'large_community' in a:
         out[32] = sorted(tuple(c[1]) for c in a['large_community'])
+    if 'prefix_sid' in a:
+        out[40] = prefix_sid_value(a['prefix_sid'])
     if 'generic' in a:
         code, flags, value = a['generic']
         out[code] = value
